@@ -1305,35 +1305,36 @@ Proof.
   split; [rewrite A1; now apply chan_names_NoDup|]. split; [exact C1 | exact C2].
 Qed.
 
-Lemma files_identb_sound t source with_off : forall cf i,
-  files_identb t source with_off i cf = true ->
+Lemma files_identb_sound t source offs : forall cf i,
+  files_identb t source offs i cf = true ->
   forall k, 0 <= k < zlen cf ->
     let f := znth (mkCF EmptyString 0 EmptyString EmptyString EmptyString (status_ident t source 0) None) cf k in
     let id := status_ident t source (i + k) in
     f_dspname f = i_chname id /\ f_dspnum f = i_chnum id /\ ident_eqb (f_hd f) id = true /\
-    (with_off = true -> exists h, f_offhd f = Some h /\ ident_eqb h id = true) /\
-    (with_off = false -> f_offhd f = None).
+    (has_off offs (i + k) = true -> exists h, f_offhd f = Some h /\ ident_eqb h id = true) /\
+    (has_off offs (i + k) = false -> f_offhd f = None).
 Proof.
   induction cf as [|f r IH]; intros i H k Hk; [unfold zlen in Hk; cbn in Hk; lia|].
   cbn [files_identb] in H. rewrite !andb_true_iff in H. destruct H as [[[[H1 H2] H3] H4] H5].
   rewrite zlen_cons in Hk. destruct (Z.eq_dec k 0) as [->|N].
   - cbv zeta. replace (i + 0) with i by lia. cbn [znth Z.ltb Z.compare Z.to_nat nth].
     apply String.eqb_eq in H1. apply Z.eqb_eq in H2. repeat split; auto.
-    + intros ->. destruct (f_offhd f) as [h|]; [exists h; cbn in H4; auto | discriminate].
-    + intros ->. destruct (f_offhd f) as [h|]; [cbn in H4; discriminate | reflexivity].
+    + intros E. destruct (f_offhd f) as [h|]; [exists h; rewrite E in H4; cbn in H4; auto | rewrite E in H4; discriminate].
+    + intros E. destruct (f_offhd f) as [h|]; [rewrite E in H4; cbn in H4; discriminate | reflexivity].
   - cbv zeta. rewrite znth_cons1 by lia. replace (i + k) with (i + 1 + (k - 1)) by lia.
     apply (IH (i + 1) H5 (k - 1)). lia.
 Qed.
 
-Lemma check_files_sound t source with_off cf nfiles :
-  check_files t source with_off cf nfiles = true ->
+Lemma check_files_sound t source offs cf nfiles :
+  check_files t source offs cf nfiles = true ->
   zlen cf = zlen (t_names t) /\
-  NoDup (map f_ljh cf ++ map f_ljh3 cf ++ (if with_off then map f_off cf else [])) /\
+  NoDup (map f_ljh cf ++ map f_ljh3 cf ++ off_names cf) /\
   forall k, 0 <= k < zlen cf ->
     let f := znth (mkCF EmptyString 0 EmptyString EmptyString EmptyString (status_ident t source 0) None) cf k in
     let id := status_ident t source k in
     f_dspname f = i_chname id /\ f_dspnum f = i_chnum id /\ ident_eqb (f_hd f) id = true /\
-    (with_off = true -> exists h, f_offhd f = Some h /\ ident_eqb h id = true).
+    (has_off offs k = true -> exists h, f_offhd f = Some h /\ ident_eqb h id = true) /\
+    (has_off offs k = false -> f_offhd f = None).
 Proof.
   unfold check_files. rewrite !andb_true_iff. intros [[[[H1 H2] H3] H4] H5].
   split; [lia|]. split; [now apply snodupb_NoDup|].
